@@ -8,6 +8,8 @@ class Lexer:
     @classmethod
     def parse(cls, expression, in_cell: Cell):
         tokens = []
+        # whitespace after the last token is whitespace between tokens too
+        expression = expression.rstrip()
         while expression:
             for token_class in cls.TOKENS:
                 token, sub_expression = token_class.get(expression.lstrip(), in_cell)
